@@ -178,8 +178,12 @@ func c36Tokens(s c36Stmt) []c36Tok {
 	return out
 }
 
+func c36IsLitKind(k string) bool {
+	return k == "int" || k == "dec" || k == "str" || k == "float" || k == "hex" || k == "bit"
+}
+
 func c36Wordlike(k string) bool {
-	return k == "kw" || k == "id" || k == "int" || k == "dec" || k == "str"
+	return k == "kw" || k == "id" || c36IsLitKind(k)
 }
 
 // c36BaseGap is the canonical text between tokens i-1 and i (gap 0: before the first
@@ -267,17 +271,29 @@ func c36CommentContents(form string) []string {
 var c36CmtForms = []string{"mlc-spaced", "mlc-tight", "dash", "hash"}
 var c36CaseStyles = []string{"upper", "capital", "alternate"}
 
+// every spelling MySQL accepts for a literal of the kind (default sql_mode)
 var c36LitForms = map[string][]string{
-	"int": {"digit", "zero", "long", "leading-zero"},
-	"dec": {"short", "long", "leading-dot"},
-	"str": {"plain", "space", "empty", "doubled-quote", "bs-quote", "dq-delim", "dq-inside", "sq-in-dq", "cmt-dash", "cmt-hash", "cmt-mlc", "digits", "sql", "paren", "qmark"},
+	"int":   {"digit", "zero", "long", "leading-zero", "neg", "pos"},
+	"dec":   {"short", "long", "leading-dot", "trailing-dot", "zero-int", "neg", "pos"},
+	"float": {"lower", "upper", "neg-exp", "upper-neg-exp", "pos-exp", "mantissa", "upper-mantissa", "dot-mantissa", "neg"},
+	"hex":   {"lower-digits", "upper-digits", "mixed", "decimal-digits", "all-lower", "all-upper", "FF", "ff", "zero", "F0", "x-quote", "X-quote", "x-quote-upper-digits"},
+	"bit":   {"b-quote", "B-quote", "0b", "0b-long", "b-quote-empty"},
+	"str": {"plain", "space", "empty", "doubled-quote", "bs-quote", "dq-delim", "dq-inside", "sq-in-dq", "cmt-dash", "cmt-hash", "cmt-mlc", "digits", "sql", "paren", "qmark",
+		"only-quote", "dq-empty", "dq-doubled", "dq-doubled-short", "dq-only-quote", "dq-bs-dq", "dq-bs-sq", "bs-bs-tail", "dq-bs-bs-tail", "newline", "dq-space", "doubled-twice", "dq-digits"},
 }
 var c36LitText = map[string]string{
-	"int/digit": "7", "int/zero": "0", "int/long": "1234567", "int/leading-zero": "007",
-	"dec/short": "2.5", "dec/long": "1234.5678", "dec/leading-dot": ".75",
+	"int/digit": "7", "int/zero": "0", "int/long": "1234567", "int/leading-zero": "007", "int/neg": "-42", "int/pos": "+42",
+	"dec/short": "2.5", "dec/long": "1234.5678", "dec/leading-dot": ".75", "dec/trailing-dot": "5.", "dec/zero-int": "0.25", "dec/neg": "-2.5", "dec/pos": "+2.5",
+	"float/lower": "3e7", "float/upper": "3E7", "float/neg-exp": "1e-5", "float/upper-neg-exp": "1E-5", "float/pos-exp": "1e+5", "float/mantissa": "2.5e10", "float/upper-mantissa": "1.5E-3", "float/dot-mantissa": ".5e1", "float/neg": "-1e5",
+	"hex/lower-digits": "0xab12", "hex/upper-digits": "0xAB12", "hex/mixed": "0xAbCdEf", "hex/decimal-digits": "0x0123456789", "hex/all-lower": "0xabcdef", "hex/all-upper": "0xABCDEF",
+	"hex/FF": "0xFF", "hex/ff": "0xff", "hex/zero": "0x0", "hex/F0": "0xF0", "hex/x-quote": "x'1f'", "hex/X-quote": "X'1f'", "hex/x-quote-upper-digits": "x'1F'",
+	"bit/b-quote": "b'1010'", "bit/B-quote": "B'01'", "bit/0b": "0b01", "bit/0b-long": "0b11110000", "bit/b-quote-empty": "b''",
 	"str/plain": "'zz'", "str/space": "'hello world'", "str/empty": "''", "str/doubled-quote": "'it''s'", "str/bs-quote": `'it\'s'`,
 	"str/dq-delim": `"zz"`, "str/dq-inside": `'say "hi"'`, "str/sq-in-dq": `"it's"`, "str/cmt-dash": "'a -- b'", "str/cmt-hash": "'a # b'", "str/cmt-mlc": "'a /* b */ c'",
 	"str/digits": "'12345'", "str/sql": "'x = 1 or y in (2)'", "str/paren": "'a) (b'", "str/qmark": "'?'",
+	"str/only-quote": "''''", "str/dq-empty": `""`, "str/dq-doubled": `"say ""hi"""`, "str/dq-doubled-short": `"a""b"`, "str/dq-only-quote": `""""`,
+	"str/dq-bs-dq": `"a\"b"`, "str/dq-bs-sq": `"a\'b"`, "str/bs-bs-tail": `'a\\'`, "str/dq-bs-bs-tail": `"a\\"`, "str/newline": "'a\nb'", "str/dq-space": `"hello world"`,
+	"str/doubled-twice": "'a''b''c'", "str/dq-digits": `"12345"`,
 }
 
 func c36Comment(arg string) (form, content string) {
@@ -396,7 +412,7 @@ func c36CtxKind(toks []c36Tok, i int) string {
 	switch toks[i].K {
 	case "kw", "id":
 		return "W"
-	case "int", "dec", "str":
+	case "int", "dec", "str", "float", "hex", "bit":
 		return "V"
 	case "op":
 		return "O"
@@ -449,6 +465,9 @@ func c36AllSingleEdits(toks []c36Tok) []c36Edit {
 			}
 		}
 		for _, f := range c36LitForms[t.K] {
+			if (f == "neg" || f == "pos") && i > 0 && toks[i-1].T == "limit" {
+				continue // not a valid row count
+			}
 			out = append(out, c36Edit{"lit", i, f})
 		}
 	}
@@ -462,11 +481,19 @@ var c36Columns = []string{"id", "name", "a", "b", "col1", "uid", "status", "c2",
 var c36Ops = []string{"=", "<", ">", "<=", ">=", "!=", "<>"}
 
 func c36BaseLit(r *kit.Rand) c36Lit {
-	switch r.Intn(4) {
-	case 0:
+	switch r.Intn(8) {
+	case 0, 1:
 		return c36Lit{"str", "'x'"}
-	case 1:
+	case 2:
 		return c36Lit{"dec", "1.5"}
+	case 3:
+		return c36Lit{"hex", "0x1f"}
+	case 4:
+		return c36Lit{"float", "1e5"}
+	case 5:
+		if r.Bool() {
+			return c36Lit{"bit", "b'01'"}
+		}
 	}
 	return c36Lit{"int", fmt.Sprint(1 + r.Intn(9))}
 }
